@@ -423,7 +423,9 @@ class Program:
         counter = itertools.count(1)
 
         def body_expr(f: FuncInfo) -> Optional[ast.expr]:
-            if f.is_property or f.is_setter or f.parent is not None or f.node.decorator_list and not f.is_static:
+            if f.is_property or f.is_setter or f.node.decorator_list and not f.is_static:
+                return None
+            if f.parent is not None and f.nested:
                 return None
             a = f.node.args
             if a.vararg or a.kwarg:
@@ -450,6 +452,17 @@ class Program:
 
         def resolve(caller: FuncInfo, call: ast.Call) -> Optional[Tuple[FuncInfo, Optional[ast.expr]]]:
             fnode = call.func
+            if isinstance(fnode, ast.Name) and fnode.id in caller.nested:
+                # a local helper function of the caller: its free names are the caller's own locals
+                nf = caller.nested[fnode.id]
+                free = {x.id for x in ast.walk(nf.node) if isinstance(x, ast.Name) and isinstance(x.ctx, ast.Load)}
+                stores = {}
+                for x in ast.walk(caller.node):
+                    if isinstance(x, ast.Name) and isinstance(x.ctx, ast.Store):
+                        stores[x.id] = stores.get(x.id, 0) + 1
+                if all(stores.get(nm, 0) <= 1 for nm in free):
+                    return nf, None
+                return None
             if isinstance(fnode, ast.Name):
                 # not shadowed by a local / parameter of the caller
                 for x in ast.walk(caller.node):
@@ -576,19 +589,29 @@ class Program:
         def pure(e) -> bool:
             return all(isinstance(x, (ast.Name, ast.Attribute, ast.Constant, ast.expr_context)) for x in ast.walk(e))
 
-        def body_of(f: FuncInfo) -> Optional[List[ast.stmt]]:
-            if f.is_property or f.is_setter or f.parent is not None or f.nested or (f.node.decorator_list and not f.is_static):
+        def body_of(f: FuncInfo, want_value: bool = False) -> Optional[List[ast.stmt]]:
+            if f.is_property or f.is_setter or f.parent is not None or (f.node.decorator_list and not f.is_static):
+                return None
+            if f.nested and not want_value:
                 return None
             a = f.node.args
             if a.vararg or a.kwarg:
                 return None
             body = [st for st in f.node.body
                     if not (isinstance(st, ast.Expr) and isinstance(st.value, ast.Constant) and isinstance(st.value.value, str))]
-            if not body or len(body) > 12:
+            if not body or len(body) > (40 if want_value else 12):
                 return None
             for x in ast.walk(f.node):
-                if isinstance(x, (ast.Yield, ast.YieldFrom, ast.Lambda, ast.Global, ast.Nonlocal, ast.Await, ast.Try, ast.With)):
+                if isinstance(x, (ast.Yield, ast.YieldFrom, ast.Global, ast.Nonlocal, ast.Await)):
                     return None
+                if isinstance(x, (ast.Lambda, ast.Try, ast.With)) and not want_value:
+                    return None
+            if want_value:
+                # N13: a straight-line procedure whose only `return` is its last statement and carries the value
+                rets = [x for x in iter_own_nodes(f.node) if isinstance(x, ast.Return)]
+                if len(rets) != 1 or rets[0] is not body[-1] or rets[0].value is None:
+                    return None
+                return body
             # returns: bare, and only as `if c: return` at the top level or as the final statement
             allowed = set()
             for i, st in enumerate(body):
@@ -635,12 +658,19 @@ class Program:
                         if not (isinstance(blk, list) and blk and isinstance(blk[0], ast.stmt)):
                             continue
                         for i, st in enumerate(blk):
-                            if not (isinstance(st, ast.Expr) and isinstance(st.value, ast.Call)):
+                            want_value = False
+                            if isinstance(st, ast.Expr) and isinstance(st.value, ast.Call):
+                                call = st.value
+                            elif isinstance(st, ast.Assign) and len(st.targets) == 1 and isinstance(st.targets[0], ast.Name) and \
+                                    isinstance(st.value, ast.Call):
+                                call, want_value = st.value, True        # N13: `x = helper(args)`
+                            elif isinstance(st, ast.Return) and isinstance(st.value, ast.Call):
+                                call, want_value = st.value, True
+                            else:
                                 continue
-                            fnm = st.value.func.id if isinstance(st.value.func, ast.Name) else getattr(st.value.func, 'attr', None)
+                            fnm = call.func.id if isinstance(call.func, ast.Name) else getattr(call.func, 'attr', None)
                             if n_sites.get(fnm, 0) != 1:
                                 continue
-                            call = st.value
                             callee, recv = None, None
                             if isinstance(call.func, ast.Name):
                                 sym = self.resolve_name(caller.module, call.func.id)
@@ -649,11 +679,14 @@ class Program:
                             elif isinstance(call.func, ast.Attribute) and isinstance(call.func.value, ast.Name) and \
                                     call.func.value.id == 'self' and caller.cls is not None and caller.parent is None:
                                 m = self.lookup_method(caller.cls, call.func.attr)
-                                if m is not None and m.module is caller.module and not m.is_static and m is not caller:
-                                    callee, recv = m, call.func.value
+                                if m is not None and m.module is caller.module and m is not caller and not any(
+                                        isinstance(d_, ast.Name) and d_.id == 'classmethod' for d_ in m.node.decorator_list):
+                                    callee, recv = m, (call.func.value if not m.is_static else None)
                             if callee is None:
                                 continue
-                            body = body_of(callee)
+                            if want_value and not callee.name.startswith('_'):
+                                continue        # N13 only for private steps: public functions are units of their own for the rules
+                            body = body_of(callee, want_value)
                             if body is None or any(isinstance(a_, ast.Starred) for a_ in call.args) or \
                                     any(k.arg is None for k in call.keywords):
                                 continue
@@ -685,19 +718,44 @@ class Program:
                                 continue
                             # parameters must not be re-assigned in the body
                             stored = {x.id for b_ in body for x in ast.walk(b_) if isinstance(x, ast.Name) and isinstance(x.ctx, ast.Store)}
+                            stored |= {x.name for b_ in body for x in ast.walk(b_) if isinstance(x, (ast.FunctionDef, ast.AsyncFunctionDef))}
+                            stored |= {a_.arg for b_ in body for x in ast.walk(b_) if isinstance(x, (ast.FunctionDef, ast.Lambda))
+                                       for a_ in x.args.args + x.args.kwonlyargs}
                             if stored & set(binding):
                                 continue
                             tag = next(counter)
-                            rename = {nm: f'{nm}__p{tag}' for nm in stored}
+                            # names of the callee keep their spelling when the caller does not use them (the usual case for an
+                            # extracted step); otherwise they are renamed apart
+                            caller_names = {x.id for x in ast.walk(caller.node) if isinstance(x, ast.Name)} | \
+                                {a_.arg for a_ in caller.node.args.args + caller.node.args.kwonlyargs}
+                            rename = {nm: f'{nm}__p{tag}' for nm in stored if nm in caller_names}
 
                             class Sub(ast.NodeTransformer):
+                                def visit_FunctionDef(self, node):
+                                    self.generic_visit(node)
+                                    if node.name in rename:
+                                        node.name = rename[node.name]
+                                    return node
+
+                                def visit_arg(self, node):
+                                    if node.arg in rename:
+                                        node.arg = rename[node.arg]
+                                    return node
+
                                 def visit_Name(self, node):
                                     if node.id in rename:
                                         return ast.copy_location(ast.Name(id=rename[node.id], ctx=node.ctx), node)
                                     if node.id in binding and isinstance(node.ctx, ast.Load):
                                         return copy.deepcopy(binding[node.id])
                                     return node
-                            new = [Sub().visit(copy.deepcopy(b_)) for b_ in nest(body)]
+                            if want_value:
+                                pre = [Sub().visit(copy.deepcopy(b_)) for b_ in body[:-1]]
+                                val = Sub().visit(copy.deepcopy(body[-1].value))
+                                last = copy.copy(st)
+                                last.value = val
+                                new = pre + [last]
+                            else:
+                                new = [Sub().visit(copy.deepcopy(b_)) for b_ in nest(body)]
                             if not new:
                                 new = [ast.Pass()]
                             for n_ in new:
@@ -707,10 +765,29 @@ class Program:
                                         x.end_lineno, x.end_col_offset = getattr(st, 'end_lineno', 0), getattr(st, 'end_col_offset', 0)
                             blk[i:i + 1] = new
                             self.inlined.append((caller.fq, callee.fq))
+                            if callee.name.startswith('_') and not callee.name.startswith('__'):
+                                # a private step with this single call site: everything it does is in the caller now
+                                self._drop_function(callee)
                             changed = True
                             break
             if not changed:
                 break
+
+    def _drop_function(self, f: FuncInfo):
+        container = f.cls.node.body if f.cls is not None and f.parent is None else f.module.tree.body if f.parent is None else None
+        if container is None or f.node not in container or len(container) <= 1:
+            return
+        container.remove(f.node)
+        if f.cls is not None:
+            f.cls.methods.pop(f.name, None)
+        else:
+            f.module.functions.pop(f.name, None)
+
+        def forget(fi: FuncInfo):
+            self.functions.pop(fi.fq, None)
+            for n_ in list(fi.nested.values()):
+                forget(n_)
+        forget(f)
 
     # -- N8 / N9 / N10 -------------------------------------------------------------------------------------------------
     def _unroll_literal_iterations(self):
@@ -718,6 +795,8 @@ class Program:
                   through a single-definition local; no break / continue / else; the targets are not used elsewhere)
                   ->  BODY[a:=x1, b:=y1]; BODY[a:=x2, b:=y2]
            N9   `Cls.method(obj, args)` with Cls a class of the package and `method` an instance method  ->  `obj.method(args)`
+           N8'  `[E for a in LIT]` / `{K: V for a in LIT}` over a literal or a module-level constant tuple  ->  the display
+           N12  `f(**{'a': x})`  ->  `f(a=x)`
            N10  `next((E for a in LIT if C), D)`  ->  `E1 if C1 else E2 if C2 else ... D`;
                 `any(C for a in LIT)` / `all(...)`  ->  `C1 or C2 ...` / `C1 and C2 ...`
         Table-driven code ("a tuple of (matcher, result) rules tried in order") and the if / elif chain it replaces have the
@@ -727,7 +806,13 @@ class Program:
         def pure(e) -> bool:
             return all(isinstance(x, (ast.Name, ast.Attribute, ast.Constant, ast.expr_context)) for x in ast.walk(e))
 
-        def literal_elems(fnode, it: ast.expr) -> Optional[List[ast.expr]]:
+        def literal_elems(fnode, it: ast.expr, mod_=None) -> Optional[List[ast.expr]]:
+            if isinstance(it, ast.Name) and mod_ is not None and not any(
+                    isinstance(x, ast.Name) and x.id == it.id and isinstance(x.ctx, ast.Store) for x in ast.walk(fnode)) and \
+                    it.id not in [a.arg for a in fnode.args.args + fnode.args.kwonlyargs]:
+                sym = self.resolve_name(mod_, it.id)
+                if isinstance(sym, tuple) and sym[0] == 'const' and isinstance(sym[1], ast.Tuple) and 1 <= len(sym[1].elts) <= 8:
+                    return list(sym[1].elts)        # an (immutable) module-level tuple
             if isinstance(it, ast.Name):
                 stores = [x for x in ast.walk(fnode) if isinstance(x, ast.Name) and x.id == it.id and isinstance(x.ctx, ast.Store)]
                 defs = [x for x in ast.walk(fnode) if isinstance(x, ast.Assign) and len(x.targets) == 1 and
@@ -821,6 +906,38 @@ class Program:
                                     val[k] = new
                                 else:
                                     setattr(par, fld, new)
+                                changed = True
+                    # N8 (comprehensions): a list / dict comprehension over a literal or constant tuple, no filter -> a display
+                    for par in list(ast.walk(fnode)):
+                        for fld, val in list(ast.iter_fields(par)):
+                            items = val if isinstance(val, list) else [val]
+                            for k, c in enumerate(items):
+                                if not (isinstance(c, (ast.ListComp, ast.DictComp)) and len(c.generators) == 1 and
+                                        not c.generators[0].ifs and not c.generators[0].is_async):
+                                    continue
+                                elems = literal_elems(fnode, c.generators[0].iter, mod)
+                                bs = bindings(c.generators[0].target, elems) if elems is not None else None
+                                if bs is None:
+                                    continue
+                                if isinstance(c, ast.ListComp):
+                                    new = ast.List(elts=[subst(c.elt, b) for b in bs], ctx=ast.Load())
+                                else:
+                                    new = ast.Dict(keys=[subst(c.key, b) for b in bs], values=[subst(c.value, b) for b in bs])
+                                for x in ast.walk(new):
+                                    ast.copy_location(x, c)
+                                if isinstance(val, list):
+                                    val[k] = new
+                                else:
+                                    setattr(par, fld, new)
+                                changed = True
+                    # N12: f(**{'a': x, 'b': y})  ->  f(a=x, b=y)
+                    for c in [n for n in ast.walk(fnode) if isinstance(n, ast.Call)]:
+                        for kw in list(c.keywords):
+                            if kw.arg is None and isinstance(kw.value, ast.Dict) and kw.value.keys and all(
+                                    isinstance(k_, ast.Constant) and isinstance(k_.value, str) and k_.value.isidentifier()
+                                    for k_ in kw.value.keys):
+                                idx = c.keywords.index(kw)
+                                c.keywords[idx:idx + 1] = [ast.keyword(arg=k_.value, value=v_) for k_, v_ in zip(kw.value.keys, kw.value.values)]
                                 changed = True
                     # N8: for statements
                     for par in list(ast.walk(fnode)):
